@@ -1004,6 +1004,11 @@ func (vc *FuncVC) backEdgeChecks(u, h *ssa.BasicBlock, cond Term) {
 		t := env.boolean(inv.E)
 		vc.oblige("L", fmt.Sprintf("loop%d/inv%d/preserved@b%d", k, j+1, u.Index), cond, t, clauseTags(inv, tags), h.Instrs[0].Pos(), inv.Src)
 	}
+	if ee := vc.fc.ErrExit[k]; ee != nil {
+		// error-exit: the loop is only repeated while no error is pending in the ErrDecimal
+		t := env.boolean(&ECall{Fn: "edclean", Args: []Expr{ee.E}})
+		vc.oblige("L", fmt.Sprintf("loop%d/errexit@b%d", k, u.Index), cond, t, vc.propTags("C04", "C03"), h.Instrs[0].Pos(), "a pending error ends the loop: "+ee.Src)
+	}
 	if d := vc.fc.Decr[k]; d != nil && lh.hasMeas {
 		m := env.integer(d.E)
 		vc.oblige("L", fmt.Sprintf("loop%d/decreases@b%d", k, u.Index), cond, And(Ge(lh.measure, IntLit(0)), Lt(m, lh.measure)), vc.propTags("C04"), h.Instrs[0].Pos(), d.Src)
